@@ -3,11 +3,16 @@
    every result stays on a character boundary of valid UTF-8 text; (2) over any SearchOK search
    the iterators / split / replace never take an out-of-order, out-of-range or off-boundary
    slice and every yielded span is valid; (3) the branch stack is bounded (C07).
-   NOT proved yet: that the compiled VM itself never reaches a Panic outcome and satisfies
-   SearchOK (the invariant over all compiled programs) — that part rests on the correspondence
-   check under catch_unwind and is reported as partial. *)
-From FR Require Import Base Utf8 Utf8Facts Chars Ast Analyze Sem SemSound Api ApiProofs.
-From Coq Require Import NArith.
+   (4) for compiled programs in the scope of the end-to-end theorem (Properties/C01.v: no Delegate
+   instruction, no conditional, no variable-length look-behind alternation) the VM never reaches
+   one of its panic sites and every capture slot it reports is unset or a character boundary
+   inside the text.
+   NOT proved: (4) for programs with Delegate instructions or conditionals, and SearchOK's
+   "start at or after the search offset" (false for \K inside a look-behind: F-keepout-lb) —
+   those rest on the correspondence check under catch_unwind and are reported as partial. *)
+From FR Require Import Base State Utf8 Utf8Facts Chars Ast Analyze Sem SemSound Api ApiProofs
+                       Vm Compile Machine CompileCorrect RunCorrect EndToEnd.
+From Coq Require Import NArith Lia.
 
 Theorem C05_reference_offsets_valid : forall cs cx, valid_chars cs -> c_text cx = concat cs ->
   (N.of_nat (length (concat cs)) < usize_max)%N ->
@@ -43,6 +48,47 @@ Proof.
   apply (collect_chain tx search HOK Hf (length l) m_init).
 Qed.
 
+Theorem C05_vm_never_panics :
+  forall cs : list (list nat), valid_chars cs ->
+  forall cx : ctx, c_text cx = concat cs -> (N.of_nat (length (concat cs)) < usize_max)%N ->
+  bnd cs (c_pos cx) ->
+  forall (bs : N -> bool) (e : expr) (p : prog),
+  compile bs (wrap e) = inr p -> nodeleg (p_body p) -> oke 0 (wrap e) ->
+  forall (max_st : nat) (lim : option N) (fuelv : nat),
+  fst (vm_run cx p max_st lim fuelv) <> RPanic.
+Proof.
+  intros cs W cx Ht Hl Hp bs e p Hc Hn Ho max_st lim fuelv Hr.
+  pose proof (vm_agrees_with_reference cs W cx Ht Hl Hp bs e p Hc Hn Ho (S (length (concat cs))) (le_n _) max_st lim fuelv) as H.
+  rewrite Hr in H. exact H.
+Qed.
+
+Theorem C05_vm_offsets_valid :
+  forall cs : list (list nat), valid_chars cs ->
+  forall cx : ctx, c_text cx = concat cs -> (N.of_nat (length (concat cs)) < usize_max)%N ->
+  bnd cs (c_pos cx) ->
+  forall (bs : N -> bool) (e : expr) (p : prog),
+  compile bs (wrap e) = inr p -> nodeleg (p_body p) -> oke 0 (wrap e) ->
+  forall (max_st : nat) (lim : option N) (fuelv : nat) sv,
+  fst (vm_run cx p max_st lim fuelv) = RMatch sv ->
+  Forall (fun v => match v with MAXV => True | V q => bnd cs q end) (firstn (2 * S (ngroups e)) sv).
+Proof.
+  intros cs W cx Ht Hl Hp bs e p Hc Hn Ho max_st lim fuelv sv Hr.
+  pose proof (vm_agrees_with_reference cs W cx Ht Hl Hp bs e p Hc Hn Ho (S (length (concat cs))) (le_n _) max_st lim fuelv) as H.
+  rewrite Hr in H. unfold search_list in H.
+  destruct (sem cx (wrap e) (S (length (concat cs))) 0 (c_pos cx, init_caps (S (ngroups e)))) as [|s rest] eqn:Es; [discriminate|].
+  assert (H1 : end_fix (snd s) = firstn (2 * S (ngroups e)) sv) by congruence. clear H.
+  assert (Hs : st_ok cs s).
+  { destruct Ho as (Hw & _). assert (Hin : In s (sem cx (wrap e) (S (length (concat cs))) 0 (c_pos cx, init_caps (S (ngroups e))))) by (rewrite Es; left; auto).
+    eapply (sem_sound cs W cx Ht Hl (wrap e) Hw) in Hin.
+    - destruct Hin as (n & [Hok _] & _). exact Hok.
+    - split; [exact Hp|]. cbn [snd]. unfold init_caps. apply Forall_forall. intros x Hx. apply repeat_spec in Hx. subst. exact I. }
+  destruct Hs as [_ Hc']. rewrite <- H1. change (Forall (val_ok cs) (end_fix (snd s))). unfold end_fix.
+  pose proof (val_ok_getcap cs (snd s) 0 Hc') as H0.
+  destruct (getcap (snd s) 0) as [s0|]; destruct (nth_error (snd s) 1) as [[s1|]|] eqn:E1; try exact Hc'.
+  - destruct (s1 <? s0); [|exact Hc']. apply val_ok_upd; auto. rewrite Forall_forall in Hc'. apply (Hc' (V s1)). eapply nth_error_In; eauto.
+  - apply val_ok_upd; auto. rewrite Forall_forall in Hc'. apply (Hc' (V s1)). eapply nth_error_In; eauto.
+Qed.
+
 Check C05_reference_offsets_valid.
 Check C05_split_no_panic.
 
@@ -50,3 +96,5 @@ Print Assumptions C05_reference_offsets_valid.
 Print Assumptions C05_iter_spans_valid.
 Print Assumptions C05_split_no_panic.
 Print Assumptions C05_replace_no_panic.
+Print Assumptions C05_vm_never_panics.
+Print Assumptions C05_vm_offsets_valid.
